@@ -204,3 +204,30 @@ Example C07_indep_discharged_run :
                       | None => (0%nat, -1) end in
   (run 0, run 2, run 9, run 12) = ((60%nat, 108), (60%nat, 108), (60%nat, 108), (60%nat, 108)).
 Proof. vm_compute. reflexivity. Qed.
+
+(* ---- linked blocks and dictionaries through the STREAMING models (see Properties_C03.v): every block of the frame is
+   strictly valid against the history the format prescribes, and the frame decodes ---- *)
+From LZ4V Require Import Model.FastStream Model.HcTabStream Model.HcOptStream.
+From LZ4V Require Import Proofs.BlkInstLinked Proofs.BlkInstHcLinked Proofs.BlkFrameInstLinked.
+
+Theorem C07_frame_conformant_fast_stream_discharged : forall level st, (forall n, lorc_ok (st n)) ->
+  forall c0 po dk ms F X,
+  prefs_opt_ok po -> uncompressed_only_if_independent po ms -> len X < U64 ->
+  p_level (eff_prefs po) = level -> level < LZ4HC_CLEVEL_MIN ->
+  session (blk_fast_linked st level) c0 po dk ms = Some (F, X) ->
+  frame_decode strict_valid false (dict_of dk) F = Some (X, []) /\
+  exists maxb bl, bsid_size (p_bsid (eff_prefs po)) = Some maxb /\ X = contents bl /\
+    chain strict_valid (p_blockMode (eff_prefs po) =? 1) (dict_of dk) maxb [] bl.
+Proof. exact c07_conformant_fast_stream. Qed.
+Print Assumptions C07_frame_conformant_fast_stream_discharged.
+
+Theorem C07_frame_conformant_hc_stream_discharged : forall st, (forall n, horc_ok (st n)) ->
+  forall c0 po dk ms F X,
+  prefs_opt_ok po -> uncompressed_only_if_independent po ms -> len X < U64 ->
+  3 <= p_level (eff_prefs po) -> p_blockMode (eff_prefs po) = 0 -> no_cdict dk ->
+  session (blk_hc_linked st) c0 po dk ms = Some (F, X) ->
+  frame_decode strict_valid false (dict_of dk) F = Some (X, []) /\
+  exists maxb bl, bsid_size (p_bsid (eff_prefs po)) = Some maxb /\ X = contents bl /\
+    chain strict_valid (p_blockMode (eff_prefs po) =? 1) (dict_of dk) maxb [] bl.
+Proof. exact c07_conformant_hc_stream. Qed.
+Print Assumptions C07_frame_conformant_hc_stream_discharged.
